@@ -56,6 +56,8 @@ let nfail = ref 0
 let stats : (string, int) Hashtbl.t = Hashtbl.create 32
 let bump ?(by = 1) k = Hashtbl.replace stats k (by + (try Hashtbl.find stats k with Not_found -> 0))
 let inv_cache : (string, bool) Hashtbl.t = Hashtbl.create 64
+let hp_before_reopen : string option ref = ref None
+let last_hp = ref "-"
 let pointers : (string * string, int * int * int * int) Hashtbl.t = Hashtbl.create 64
 (* logical view of an entry: a resolved indirection reads like a value *)
 let logical (e : entry) = match e.ty with Ind -> { e with ty = Value } | _ -> e
@@ -151,7 +153,15 @@ let check_dump ~(hp : string) ~(hm : string) ~(hs : string) (svs : superversion 
      (* 2. high-water marks *)
      bump "marks_checked";
      if not (opt_n_eq (highest_persisted l) (opt_n_of_string hp)) then
-       fail "marks" (Printf.sprintf "persisted impl=%s model=%s" hp (show_opt_n (highest_persisted l)));
+       fail "marks" (Printf.sprintf "persisted impl=%s true-max=%s" hp (show_opt_n (highest_persisted l)));
+     if not (opt_n_eq (impl_highest_persisted l) (opt_n_of_string hp)) then
+       drift "marks-model" (Printf.sprintf "persisted impl=%s model-getter=%s" hp (show_opt_n (impl_highest_persisted l)));
+     (match !hp_before_reopen with
+      | Some before when before <> hp ->
+        fail "marks" (Printf.sprintf "persisted mark changed across reopen: before=%s after=%s" before hp)
+      | _ -> ());
+     hp_before_reopen := None;
+     last_hp := hp;
      if not (opt_n_eq (highest_memtable l) (opt_n_of_string hm)) then
        fail "marks" (Printf.sprintf "memtable impl=%s model=%s" hm (show_opt_n (highest_memtable l)));
      if not (opt_n_eq (highest_overall l) (opt_n_of_string hs)) then
@@ -224,6 +234,43 @@ let check_step_model ~(wm : n) (pre : superversion) (post : superversion) =
     if moved then bump "move_steps"
   end
 
+(* ---------- operations that remove data by design: drop_range, clear, fifo ----------
+   The ordered-map history is adjusted exactly as the property allows and nothing more:
+   clear: every earlier write dies for snapshots above the clear's version seqno;
+   drop_range(R)/fifo: only keys of the removed tables are touched (for drop_range they must
+   lie inside R, otherwise FAIL kind=drop-outside); for those keys the history visible to
+   later snapshots is rebased on what is physically left; earlier snapshots keep their view. *)
+let apply_destructive_op (pre : superversion) (post : superversion) =
+  let words = String.split_on_char ' ' !op_text in
+  let changed = not (N.eqb pre.sv_seq post.sv_seq) in
+  let g = post.sv_seq in
+  let rebase_keys (keys : key list) =
+    let is_k (k : key) = List.exists (fun k' -> key_eqb k k') keys in
+    List.iter (fun h -> if h.dead = None && alive h sEQ_MAX && is_k h.e.ukey then h.dead <- Some g) !hist;
+    List.iter (fun e -> if is_k e.ukey then hist := { e = logical e; born = Some g; dead = None } :: !hist) (content post) in
+  match words with
+  | "clear" :: _ when changed ->
+    bump "clears";
+    List.iter (fun h -> if h.dead = None then h.dead <- Some g) !hist
+  | "droprange" :: lo :: hi :: _ ->
+    let lo = parse_bound lo and hi = parse_bound hi in
+    let pre_ids = table_ids pre and post_ids = table_ids post in
+    let removed = List.filter (fun t -> not (List.mem (int_of_n t.tid) post_ids)) (all_tables pre.ver) in
+    let added = List.filter (fun i -> not (List.mem i pre_ids)) post_ids in
+    if added <> [] then fail "drop-added" "drop_range created tables";
+    if removed <> [] then bump "droprange_effective";
+    List.iter (fun t ->
+        List.iter (fun e -> if not (in_bounds lo hi e.ukey) then
+                      fail "drop-outside" (Printf.sprintf "table=%d key=%s outside the dropped range" (int_of_n t.tid) (hex_of_bytes e.ukey))) t.ents) removed;
+    if removed <> [] && not changed then fail "drop-nosv" "tables vanished without a new version";
+    rebase_keys (List.concat_map (fun t -> List.map (fun e -> e.ukey) t.ents) removed)
+  | "fifo" :: _ ->
+    let post_ids = table_ids post in
+    let removed = List.filter (fun t -> not (List.mem (int_of_n t.tid) post_ids)) (all_tables pre.ver) in
+    if removed <> [] then bump "fifo_effective";
+    rebase_keys (List.concat_map (fun t -> List.map (fun e -> e.ukey) t.ents) removed)
+  | _ -> ()
+
 (* ---------- trace interpreter ---------- *)
 let () =
   let file = Sys.argv.(1) in
@@ -276,6 +323,8 @@ let () =
              hist := List.map (fun e -> { e = logical e; born = None; dead = None })
                  (List.concat_map (fun t -> t.ents) (all_tables l.ver))
            | None -> ());
+          hp_before_reopen := Some !last_hp;
+          Hashtbl.reset tables; Hashtbl.reset mts; Hashtbl.reset inv_cache;
           Hashtbl.reset snaps;
           bump "reopens"
         | _ -> ())
@@ -324,23 +373,25 @@ let () =
          incr i
        done;
        let svs = List.rev !svs in
-       (* ingestion: the batch becomes |batch| writes at the global seqno of the new table *)
+       (* ingestion: the batch becomes |batch| writes at the seqno allocated by finish(),
+          which is both the tables' global seqno and the new superversion's seqno *)
        if !pending_ingest <> [] then begin
          (match latest svs, latest !cur with
           | Some post, Some pre ->
-            let pre_ids = table_ids pre in
-            let fresh = List.filter (fun t -> not (List.mem (int_of_n t.tid) pre_ids) && not (N.eqb t.gseq N0)) (all_tables post.ver) in
-            (match fresh with
-             | t :: _ ->
-               List.iter (fun (k, ty, v) ->
-                   hist := { e = { ukey = k; seq = t.gseq; ty; val0 = v }; born = None; dead = None } :: !hist) !pending_ingest;
-               bump "ingests"
-             | [] -> fail "ingest-missing" "no table with a global seqno appeared")
+            if N.eqb post.ver.vid pre.ver.vid then fail "ingest-missing" "no new version after a non-empty ingestion"
+            else begin
+              let g = post.sv_seq in
+              List.iter (fun (k, ty, v) ->
+                  hist := { e = { ukey = k; seq = g; ty; val0 = v }; born = None; dead = None } :: !hist) !pending_ingest;
+              bump "ingests"
+            end
           | _ -> ());
          pending_ingest := []
        end;
        (match latest !cur, latest svs with
-        | Some pre, Some post when !op_idx >= 0 -> (try check_step_model ~wm:!wm pre post with Not_found -> ())
+        | Some pre, Some post when !op_idx >= 0 ->
+          (try check_step_model ~wm:!wm pre post with Not_found -> ());
+          apply_destructive_op pre post
         | _ -> ());
        check_dump ~hp:(get "hp") ~hm:(get "hm") ~hs:(get "hs") svs;
        cur := svs
